@@ -36,6 +36,8 @@ claimed = {
    "Decides that every index/slice expression of the decode path is in bounds (each clause separately: lower, order, upper vs cap) by proof or by a reviewed entry with its reason; that no process exit, explicit panic or unchecked type assertion is reachable there outside the reviewed table; that writes into the caller's data buffer are exactly the enumerated reviewed ones; that mutex-protected decoder scratch state is not accessed or aliased outside its lock. It does not decide fidelity, 'exactly its fields' or JSON validity after cuts."),
  "C13": ("the C12 bounds prover over everything reachable (CHA) from every ActionPlugin.Do, exit / unchecked-assertion reachability, nil-receiver check against the nil-unsafe method set derived from insane-json's own SSA, writer-set invariants backing the reviewed table", "§3 C13",
    "Decides that every index/slice clause reachable from any action's Do is in bounds by proof or reviewed entry, that no process exit / panic / unchecked assertion is reachable there outside the reviewed table and the known findings (K5 mask group order, K6 k8s multi-line log field), that no receiver-dereferencing node method is called on a possibly-nil Dig result, and that the object invariants the reviewed reasons quote (parallel slices written only at Start, multi-line buffer keeps its first byte) hold. It does not decide termination, JSON well-formedness after the action, or 'one of the defined results'."),
+ "C15": ("typestate / CFG path rules on the hold-propagate protocol and the processor's busy loop, global-write scan of the multi-line actions, co-reset of the k8s accumulators", "§3 C15",
+   "Decides structural necessary conditions of multi-line reassembly: hold<->propagate typestate, receiver-local run state, same-stream blockGet with the stream captured before the actions run, busy actions not match-filtered, Propagate clearing the busy mark before re-entry, k8s accumulators reset together. It does not decide that the joined field is the in-order concatenation of the run."),
 }
 NA = {
  "C06": "the claim is an equation between runtime byte positions (offset = start + scanned) for every content, buffer size and append split; no sound static argument in reach bounds it, and the only structural proxies are matches on one loop's arithmetic (a frozen fragment)",
